@@ -236,6 +236,34 @@ func runC16(file string, stats map[string]int) {
 				}
 				return r, e, s, ids, nil
 			}, encodeCK},
+			// the same keys supplied as the keys of an entity map (batch_update): AddAllMapKeys instead of AddAllKeys
+			{"collCK-map", func(tr *cannedTransport) (map[any]int, map[any]int, map[any]int, []any, error) {
+				ents := map[*vt.CK]*vt.Leaf{}
+				var ids []any
+				for _, k := range row.Requested {
+					ck := &vt.CK{KeyPart: vt.KeyPart{Id: partText[k.Part], N: partNum[k.Part]}}
+					if k.Params != "none" {
+						ck.Params = &vt.KeyParams{P: k.Params}
+					}
+					ents[ck] = &vt.Leaf{A: 1}
+					ids = append(ids, ck)
+				}
+				res, err := collck.NewClient(rc(tr)).BatchUpdate(ents)
+				if err != nil {
+					return nil, nil, nil, ids, err
+				}
+				r, e, s := map[any]int{}, map[any]int{}, map[any]int{}
+				for k, v := range res.Results {
+					r[k] = v.Status
+				}
+				for k, v := range res.Errors {
+					e[k] = int(*v.Status)
+				}
+				for k, v := range res.Statuses {
+					s[k] = v
+				}
+				return r, e, s, ids, nil
+			}, encodeCK},
 			{"collStr", func(tr *cannedTransport) (map[any]int, map[any]int, map[any]int, []any, error) {
 				var keys []string
 				var ids []any
@@ -264,7 +292,9 @@ func runC16(file string, stats map[string]int) {
 			// string keys have no params: behaviours that differ only in params collapse; skip those whose
 			// requested list would contain equal strings only through params
 			tr := &cannedTransport{}
-			if rn.name == "collStr" {
+			if rn.name == "collCK-map" {
+				tr.body = strings.ReplaceAll(replyJSON(&row, rn.enc, wireCode), `{"a":`, `{"status":`)
+			} else if rn.name == "collStr" {
 				tr.body = strings.ReplaceAll(replyJSON(&row, rn.enc, wireCode), `{"a":`, `{"status":`)
 				collapsed := false
 				for _, ws := range row.Reply {
